@@ -1350,3 +1350,17 @@ mod tests {
         );
     }
 }
+
+/// Re-exports of the forwarding wrappers used by external verification harnesses.
+///
+/// Compiled only with the `verif-hooks` cargo feature.
+#[cfg(feature = "verif-hooks")]
+#[doc(hidden)]
+pub mod verif_hooks {
+    pub use crate::core::builder::verif_hooks_builder as builder;
+    pub use crate::core::collections::spatial_hash_grid::verif_hooks_grid as grid;
+    pub use crate::core::delaunay_triangulation::verif_hooks_dt as dt;
+    pub use crate::core::triangulation_data_structure::verif_hooks_tds as tds;
+    pub use crate::core::util::deduplication::verif_hooks_dedup as dedup;
+    pub use crate::topology::traits::global_topology_model::verif_hooks_topology as topology;
+}
